@@ -246,8 +246,9 @@ void DnsRequest::onUdpRecv(const void *data_ptr, size_t data_size, const SockAdd
     RECORD_SCOPE();
     util::Deserializer parser(data_ptr, data_size);
 
-    uint16_t req_id, flags;
-    parser >> req_id >> flags;
+    uint16_t req_id = 0, flags = 0;
+    if (!parser.fetch(req_id) || !parser.fetch(flags))
+        return; //! 数据不完整，连ID与flags都没有
 
     Request *req = findRequest(req_id);
     if (req == nullptr)
@@ -262,8 +263,12 @@ void DnsRequest::onUdpRecv(const void *data_ptr, size_t data_size, const SockAdd
     Result result;
 
     if (rcode == 0) {   //! 正常
-        uint16_t qd_count, an_count, ns_count, ar_count;
-        parser >> qd_count >> an_count >> ns_count >> ar_count;
+        uint16_t qd_count = 0, an_count = 0, ns_count = 0, ar_count = 0;
+        if (!parser.fetch(qd_count) || !parser.fetch(an_count) ||
+            !parser.fetch(ns_count) || !parser.fetch(ar_count)) {
+            LogNotice("dns reply incomplete");
+            return;
+        }
 
 #if 0
         LogTrace("id:%d, flags:%04x, qd_count:%d, an_count:%d, ns_count:%d, ar_count:%d",
@@ -277,8 +282,11 @@ void DnsRequest::onUdpRecv(const void *data_ptr, size_t data_size, const SockAdd
                 LogNotice("dns reply with bad domain name");
                 return;
             }
-            uint16_t dns_type, dns_class;
-            parser >> dns_type >> dns_class;
+            uint16_t dns_type = 0, dns_class = 0;
+            if (!parser.fetch(dns_type) || !parser.fetch(dns_class)) {
+                LogNotice("dns reply incomplete");
+                return;
+            }
         }
 
         for (uint16_t i = 0; i < an_count; ++i) {
@@ -287,18 +295,26 @@ void DnsRequest::onUdpRecv(const void *data_ptr, size_t data_size, const SockAdd
                 LogNotice("dns reply with bad domain name");
                 return;
             }
-            uint16_t an_type, an_class, an_len;
-            uint32_t an_ttl;
-            parser >> an_type >> an_class >> an_ttl >> an_len;
+            uint16_t an_type = 0, an_class = 0, an_len = 0;
+            uint32_t an_ttl = 0;
+            if (!parser.fetch(an_type) || !parser.fetch(an_class) ||
+                !parser.fetch(an_ttl) || !parser.fetch(an_len)) {
+                LogNotice("dns reply incomplete");
+                return;
+            }
 
 #if 0
             LogTrace("type:%d, class:%d, ttl:%d, len:%d", an_type, an_class, an_ttl, an_len);
 #endif
             if (an_type == DNS_TYPE_A) {
-                uint32_t ip_value;
+                uint32_t ip_value = 0;
                 auto old_endian = parser.setEndian(util::Endian::kLittle);
-                parser >> ip_value;
+                bool is_fetched = parser.fetch(ip_value);
                 parser.setEndian(old_endian);
+                if (!is_fetched) {
+                    LogNotice("dns reply incomplete");
+                    return;
+                }
                 A a = { an_ttl, IPAddress(ip_value) };
                 result.a_vec.push_back(a);
 
@@ -313,7 +329,10 @@ void DnsRequest::onUdpRecv(const void *data_ptr, size_t data_size, const SockAdd
 
             } else {
                 LogNotice("unknow type:%d", an_type);
-                parser.skip(an_len);
+                if (!parser.skip(an_len)) {
+                    LogNotice("dns reply incomplete");
+                    return;
+                }
             }
         }
     } else {
